@@ -11,6 +11,18 @@ package checks
 // of a receiver that already holds every block the tampered block links to: the sync must return
 // an error and the receiver's documents, commits and heads must be unchanged. The untampered block
 // goes through the same path and must change the receiver (negative control).
+//
+// Delivery SEQUENCES on one receiver (its block store is never reset between deliveries; syncDAG stores a
+// pushed block before it verifies it, so a rejected forged block stays behind as an orphan): after the first,
+// rejected delivery of a tampered block T' the same receiver is offered (1) T' again, (2) commits built on
+// top of T' - a child with Heads = [T'] that is unsigned / validly signed by the original signer / validly
+// signed by another identity, and a "linker": the genuine block that links the original (the composite of a
+// field block, the collection block of a composite) re-pointed to T', again unsigned / signed / signed by
+// another identity. Every one of them has the forged block in its DAG and must be rejected with the
+// receiver unchanged; when syncDAG wrongly returns nil the merge is run (hook H1) so that the forged delta
+// shows up as changed state. After the untampered control has been merged (the receiver now also holds the
+// genuine history) the whole sequence is offered once more. Controls: a validly signed child of the GENUINE
+// block is accepted (and merged), so the rejections of the children are not vacuous.
 
 import (
 	"bytes"
@@ -77,6 +89,11 @@ func c12Anchors() []core.Case {
 		cs = append(cs, core.MkCase("sig/anchor/encrypted/"+kt, 1, c12Params{KeyType: kt, Encrypted: true, ReceiverHasParents: true,
 			Docs: []map[string]any{{"name": "a", "s": "x", "c": 1}},
 			Ops:  []c12Op{{Doc: 0, Set: map[string]any{"s": "y", "c": 2}}}}))
+		// delivery sequences: branchable, so that every kind of follow-up exists (children of composite / field / collection
+		// blocks, composite linker of a field block, collection linker of a composite)
+		cs = append(cs, core.MkCase("sig/anchor/redelivery-and-children/"+kt, 1, c12Params{KeyType: kt, Branchable: true, ReceiverHasParents: true,
+			Docs: []map[string]any{{"name": "a", "s": "x", "n": 1, "c": 1}, {"name": "b", "s": "z"}},
+			Ops:  []c12Op{{Doc: 0, Set: map[string]any{"s": "y", "c": 2}}, {Doc: 1, Set: map[string]any{"n": 3}}, {Doc: 0, Delete: true}}}))
 	}
 	return cs
 }
@@ -546,6 +563,111 @@ func c12Dump(ctx context.Context, n *core.Node) string {
 	return fmt.Sprintf("docs=%s %v\ncommits=%s %v\nheads=%s", docs, e1, commits, e2, strings.Join(hk, "\n"))
 }
 
+// ---- follow-up deliveries: commits that have an already delivered block in their DAG
+
+// c12Followup is one commit built on top of (child) or around (linker) a block that was delivered before.
+type c12Followup struct {
+	Name   string // child/unsigned | child/signed-by-signer | child/signed-by-other | linker/unsigned | ...
+	Block  *coreblock.Block
+	Cid    cid.Cid
+	SigCid cid.Cid // cid.Undef when unsigned
+	SigRaw []byte
+}
+
+// c12Seal finishes a harness-made block: with an identity it is signed exactly the way signBlock
+// (internal/core/block/signing.go) does it - signature over the marshalled block without signature link, header =
+// (type of the key, public key string), the signature block linked from the block. id == nil leaves it unsigned.
+func c12Seal(name string, b *coreblock.Block, id identity.FullIdentity) *c12Followup {
+	f := &c12Followup{Name: name, Block: b}
+	b.Signature = nil
+	if id != nil {
+		msg, err := b.Marshal()
+		core.Must(err)
+		v, err := id.PrivateKey().Sign(msg)
+		core.Must(err)
+		typ := coreblock.SignatureTypeECDSA256K
+		if id.PrivateKey().Type() == crypto.KeyTypeEd25519 {
+			typ = coreblock.SignatureTypeEd25519
+		}
+		sg := &coreblock.Signature{Header: coreblock.SignatureHeader{Type: typ, Identity: []byte(id.PublicKey().String())}, Value: v}
+		f.SigRaw, err = sg.Marshal()
+		core.Must(err)
+		l, err := coreblock.GetLinkFromNode(sg.GenerateNode())
+		core.Must(err)
+		f.SigCid = l.Cid
+		b.Signature = &cidlink.Link{Cid: l.Cid}
+	}
+	l, err := b.GenerateLink()
+	core.Must(err)
+	f.Cid = l.Cid
+	return f
+}
+
+// c12Child is the next commit of the same kind on top of block x: same delta one priority higher, Heads = [x],
+// no links (a composite child is an update that touches no field; a collection child records no document).
+func c12Child(x *coreblock.Block, xc cid.Cid) *coreblock.Block {
+	ch := cloneBlock(x)
+	ch.Heads = []cidlink.Link{{Cid: xc}}
+	ch.Links = nil
+	ch.Signature = nil
+	ch.Delta.GetDelta().SetPriority(x.Delta.GetPriority() + 1)
+	return ch
+}
+
+// c12LinkerOf finds the block of the signer's store that links orig (composite -> its field blocks,
+// collection block -> the composite it records).
+func c12LinkerOf(all map[string]*c12Stored, orig cid.Cid) *c12Stored {
+	var ks []string
+	for k, st := range all {
+		if st.Block == nil {
+			continue
+		}
+		for _, l := range st.Block.Links {
+			if l.Cid.Equals(orig) {
+				ks = append(ks, k)
+				break
+			}
+		}
+	}
+	if len(ks) == 0 {
+		return nil
+	}
+	sort.Strings(ks)
+	return all[ks[0]]
+}
+
+// c12Relink is the linker with its link to orig re-pointed to repl.
+func c12Relink(linker *coreblock.Block, orig, repl cid.Cid) *coreblock.Block {
+	lb := cloneBlock(linker)
+	for i := range lb.Links {
+		if lb.Links[i].Cid.Equals(orig) {
+			lb.Links[i].Link = cidlink.Link{Cid: repl}
+		}
+	}
+	lb.Signature = nil
+	return lb
+}
+
+// c12Followups builds every follow-up of block x (cid xc) that stands in for original block orig.
+func c12Followups(x *coreblock.Block, xc cid.Cid, orig cid.Cid, linker *c12Stored, signer, other identity.FullIdentity) []*c12Followup {
+	ids := []struct {
+		n  string
+		id identity.FullIdentity
+	}{{"unsigned", nil}, {"signed-by-signer", signer}, {"signed-by-other", other}}
+	var out []*c12Followup
+	for _, v := range ids {
+		out = append(out, c12Seal("child/"+v.n, c12Child(x, xc), v.id))
+	}
+	if linker != nil {
+		for _, v := range ids {
+			out = append(out, c12Seal("linker/"+v.n, c12Relink(linker.Block, orig, xc), v.id))
+		}
+	}
+	return out
+}
+
+var c12FollowupNames = []string{"child/unsigned", "child/signed-by-signer", "child/signed-by-other", "linker/unsigned", "linker/signed-by-signer", "linker/signed-by-other"}
+
 func runC12(ctx context.Context, c core.Case, r *core.Rec) {
 	var p c12Params
 	c.P(&p)
@@ -671,8 +793,8 @@ func runC12(ctx context.Context, c core.Case, r *core.Rec) {
 		}
 	}
 	putAll(scratch)
-	var stillVerifies, accepted []c12Hit
-	nChecked, nDelivered := 0, 0
+	var stillVerifies, accepted, reaccepted, followAccepted []c12Hit
+	nChecked, nDelivered, nSequences := 0, 0, 0
 	for _, st := range signed {
 		sigSt := all[st.Block.Signature.Cid.String()]
 		if sigSt == nil || sigSt.Sig == nil {
@@ -701,6 +823,97 @@ func runC12(ctx context.Context, c core.Case, r *core.Rec) {
 		bsrv := blockservice.New(b.Blockstore(), offline.Exchange(b.Blockstore()))
 		before := c12Dump(ctx, b)
 		rawBefore := c12Raw(ctx, b)
+		linker := c12LinkerOf(all, st.Cid)
+
+		// merge raises the merge event for a block that got through syncDAG, as the push-log handler does (document
+		// commits under their docID, collection commits under the collection). ran=false: nothing to merge (field block).
+		merge := func(blk *coreblock.Block, c cid.Cid) (ran bool, err error) {
+			switch {
+			case blk.Delta.IsComposite():
+				return true, b.Merge(ctx, docID, c, colID)
+			case blk.Delta.IsCollection():
+				return true, b.Merge(ctx, "", c, colID)
+			}
+			return false, nil
+		}
+		// offer delivers one block that must be rejected to B's receive path. Rejected: nil (B's raw state is compared).
+		// Accepted: the merge runs, so that a forged delta shows up as changed state, and the hit is returned.
+		offer := func(step, tmName string, blk *coreblock.Block, c cid.Cid) *c12Hit {
+			serr := dnet.VerifSyncDAG(ctx, bsrv, blk)
+			if serr == nil {
+				ran, merr := merge(blk, c)
+				// (the query dump is expensive; with identical raw values and heads it cannot differ)
+				after, rawAfter := before, c12Raw(ctx, b)
+				if rawAfter != rawBefore {
+					after = c12Dump(ctx, b)
+				}
+				h := &c12Hit{Cell: tmName, Step: step, Kind: st.Kind, Original: st.Cid.String(), Tampered: c.String(),
+					Extra: fmt.Sprintf("%s: merge ran=%v err=%v, receiver state changed=%v", step, ran, merr, after != before), Before: before, After: after}
+				// start again from the new receiver state for the following deliveries
+				before, rawBefore = after, rawAfter
+				return h
+			}
+			if rawAfter := c12Raw(ctx, b); rawAfter != rawBefore {
+				after := c12Dump(ctx, b)
+				violate("receive/rejected-but-state-changed/"+c12Group(tmName),
+					fmt.Sprintf("syncDAG rejected the delivery (%s; tampered %s block, %s changed: %v) but the receiver's stored document values or heads changed", step, st.Kind, tmName, serr),
+					map[string]any{"raw_before": rawBefore, "raw_after": rawAfter, "before": before, "after": after})
+				before, rawBefore = after, rawAfter
+			}
+			return nil
+		}
+		// the steps that follow the first (rejected) delivery of a forged block, all on the same receiver
+		type forged struct {
+			tm      string
+			blk     *coreblock.Block
+			cid     cid.Cid
+			follows []*c12Followup
+			hit     *c12Hit // the first delivery of the sequence that got through; later ones are consequences of the same defect
+		}
+		sequence := func(phase string, f *forged) {
+			got := func(h *c12Hit) {
+				if h == nil {
+					return
+				}
+				if f.hit == nil {
+					f.hit = h
+				} else {
+					f.hit.Later++
+				}
+			}
+			// (1) the same forged block again
+			r.Count("evaluations", 1)
+			r.Count("tampered_redelivered", 1)
+			r.Count("tampered_redelivered_"+phase, 1)
+			h := offer(phase+"/redelivery", f.tm, f.blk, f.cid)
+			if h == nil {
+				r.Count("tampered_redelivered_rejected", 1)
+			}
+			got(h)
+			// (2) commits that have the forged block as head / link
+			for _, fu := range f.follows {
+				if fu.SigRaw != nil {
+					c12Put(ctx, b, fu.SigCid, fu.SigRaw)
+				}
+				r.Count("evaluations", 1)
+				r.Count("followup:"+fu.Name, 1)
+				r.Count("followup_"+phase, 1)
+				if strings.HasPrefix(fu.Name, "child/") {
+					r.Count("child_of_tampered_delivered", 1)
+				} else {
+					r.Count("linker_of_tampered_delivered", 1)
+				}
+				r.Count("followup_on_"+st.Kind, 1)
+				h := offer(phase+"/"+fu.Name, f.tm, fu.Block, fu.Cid)
+				if h == nil {
+					r.Count("followup_rejected", 1)
+				} else {
+					h.Follow = fu.Name
+				}
+				got(h)
+			}
+		}
+		var forgeds []*forged
 
 		for _, tm := range matrix {
 			tb, ts, ok := tm.Apply(tgt)
@@ -769,44 +982,34 @@ func runC12(ctx context.Context, c core.Case, r *core.Rec) {
 				continue // a commit genuinely signed by somebody else is not a forgery: the receive path may take it
 			}
 
-			// (b) receive path of B
+			// (b) receive path of B: first delivery
 			c12Put(ctx, b, sigSt.Cid, sigSt.Raw)
 			if ts != nil {
 				c12Put(ctx, b, sigCid, sigRaw)
 			}
-			serr := dnet.VerifSyncDAG(ctx, bsrv, tb)
 			r.Count("tampered_deliveries", 1)
 			nDelivered++
-			if serr == nil {
-				// like the push-log handler, a successful sync is followed by the merge event
-				var merr error
-				if st.Kind == "composite" {
-					merr = b.Merge(ctx, docID, tl.Cid, colID)
-				}
-				after := c12Dump(ctx, b)
-				accepted = append(accepted, c12Hit{Cell: tm.Name, Kind: st.Kind, Original: st.Cid.String(), Tampered: tl.Cid.String(),
-					Extra: fmt.Sprintf("merge err=%v, receiver state changed=%v", merr, after != before), Before: before, After: after})
-				// start again from the new receiver state for the following cells
-				before, rawBefore = after, c12Raw(ctx, b)
+			if h := offer("first-delivery", tm.Name, tb, tl.Cid); h != nil {
+				// everything that follows on this receiver would be a consequence of the same defect
+				accepted = append(accepted, *h)
 				continue
 			}
 			r.Count("tampered_rejected", 1)
-			if rawAfter := c12Raw(ctx, b); rawAfter != rawBefore {
-				after := c12Dump(ctx, b)
-				violate("receive/rejected-but-state-changed/"+c12Group(tm.Name),
-					fmt.Sprintf("syncDAG rejected the tampered %s block (%s changed: %v) but the receiver's stored document values or heads changed", st.Kind, tm.Name, serr),
-					map[string]any{"raw_before": rawBefore, "raw_after": rawAfter, "before": before, "after": after})
-				before, rawBefore = after, rawAfter
-			}
 			if has, _ := b.Blockstore().Has(ctx, tl.Cid); has {
 				r.Note("rejected_forged_block_stays_in_block_store_as_orphan")
 			}
+			// (c) the same receiver, which now may hold the forged block as an orphan: the block again, then commits that have
+			// it in their DAG
+			f := &forged{tm: tm.Name, blk: tb, cid: tl.Cid, follows: c12Followups(tb, tl.Cid, st.Cid, linker, signer, other)}
+			forgeds = append(forgeds, f)
+			nSequences++
+			sequence("before-control", f)
 		}
 
 		// the dump through the query interface, once per block under test, after the whole matrix
 		if after := c12Dump(ctx, b); after != before {
 			violate("receive/rejected-but-state-changed/query-dump",
-				fmt.Sprintf("after %s block %s had been offered in all its tampered forms (all rejected) the receiver's documents, commits or heads differ", st.Kind, st.Cid),
+				fmt.Sprintf("after %s block %s had been offered in all its tampered forms, again, and below other commits (all rejected) the receiver's documents, commits or heads differ", st.Kind, st.Cid),
 				map[string]any{"before": before, "after": after})
 			before = after
 		}
@@ -833,6 +1036,76 @@ func runC12(ctx context.Context, c core.Case, r *core.Rec) {
 				} else {
 					r.Count("control_changed_receiver", 1)
 				}
+			} else if linker != nil && cerr == nil {
+				// a field / collection-recorded block becomes part of the receiver's documents through the genuine commit that links it
+				if lerr := dnet.VerifSyncDAG(ctx, bsrv, linker.Block); lerr != nil {
+					violate("control/untampered-rejected/"+linker.Kind, fmt.Sprintf("the receive path rejects the untampered %s block that links the %s block under test: %v", linker.Kind, st.Kind, lerr),
+						map[string]any{"cid": linker.Cid.String()})
+				} else if _, merr := merge(linker.Block, linker.Cid); merr != nil {
+					r.Note("control_linker_merge_error")
+				} else {
+					r.Count("control_linker_merged", 1)
+				}
+			}
+		}
+
+		// (d) the receiver now also holds (and, for a commit, has merged) the genuine history: the forged blocks and the
+		// commits on top of them come in once more
+		before, rawBefore = c12Dump(ctx, b), c12Raw(ctx, b)
+		for _, f := range forgeds {
+			sequence("after-control", f)
+		}
+		if after := c12Dump(ctx, b); after != before {
+			violate("receive/rejected-but-state-changed/query-dump",
+				fmt.Sprintf("after the genuine %s block %s was merged, its tampered forms and the commits on top of them were offered again (all rejected) and the receiver's documents, commits or heads differ", st.Kind, st.Cid),
+				map[string]any{"before": before, "after": after})
+			before = after
+		}
+
+		// control of the follow-ups: the same constructions on top of the GENUINE block are good commits. The one signed by the
+		// original signer must get through the receive path and, for a commit, the merge must move the receiver.
+		if cerr == nil {
+			for _, fu := range c12Followups(st.Block, st.Cid, st.Cid, nil, signer, other) {
+				if fu.SigRaw != nil {
+					c12Put(ctx, b, fu.SigCid, fu.SigRaw)
+				}
+				serr := dnet.VerifSyncDAG(ctx, bsrv, fu.Block)
+				if fu.Name != "child/signed-by-signer" {
+					if serr != nil {
+						r.Note("control_" + fu.Name + "_of_genuine_block_rejected")
+					}
+					continue
+				}
+				if serr != nil {
+					violate("control/validly-signed-child-of-genuine-block-rejected/"+st.Kind,
+						fmt.Sprintf("a child commit of the genuine %s block, signed by the same identity the way signBlock signs, is rejected by the receive path: %v (the rejections of children of forged blocks would be vacuous)", st.Kind, serr),
+						map[string]any{"cid": st.Cid.String()})
+					continue
+				}
+				r.Count("control_child_accepted", 1)
+				if ran, merr := merge(fu.Block, fu.Cid); ran && st.Kind == "composite" {
+					if after := c12Dump(ctx, b); merr != nil {
+						if p.Encrypted {
+							r.Note("control_child_merge_error_encrypted")
+						} else {
+							violate("control/validly-signed-child-merge-error", fmt.Sprintf("merging a validly signed child of the genuine composite fails: %v", merr), map[string]any{"cid": st.Cid.String()})
+						}
+					} else if after == before {
+						violate("control/validly-signed-child-no-effect", "a validly signed child of the genuine composite went through syncDAG and merge without changing the receiver", map[string]any{"cid": st.Cid.String()})
+					} else {
+						r.Count("control_child_changed_receiver", 1)
+						before = after
+					}
+				}
+			}
+		}
+		for _, f := range forgeds {
+			switch {
+			case f.hit == nil:
+			case f.hit.Follow == "":
+				reaccepted = append(reaccepted, *f.hit)
+			default:
+				followAccepted = append(followAccepted, *f.hit)
 			}
 		}
 		ks.close()
@@ -872,11 +1145,33 @@ func runC12(ctx context.Context, c core.Case, r *core.Rec) {
 	report(accepted, nDelivered, "receive/accepts-every-tampered-block", "receive/tampered-accepted",
 		"the receive path (syncDAG) accepted all %d tampered signed blocks offered to it",
 		"the receive path (syncDAG) accepts a signed %s block whose %s was changed (%s)")
+	// the sequences: per forged block the FIRST delivery that got through names the defect
+	report(reaccepted, nSequences, "receive/tampered-accepted-on-redelivery/every-tampering", "receive/tampered-accepted-on-redelivery",
+		"the receive path (syncDAG) rejected each of %d tampered signed blocks when it first came in and accepted every one of them when the same block was delivered again to the same node",
+		"the receive path (syncDAG) rejects a signed %s block whose %s was changed when it first comes in, but accepts the same block when it is delivered again to the same node (%s)")
+	byFollow := map[string][]c12Hit{}
+	for _, h := range followAccepted {
+		byFollow[h.Follow] = append(byFollow[h.Follow], h)
+	}
+	for fn, hs := range byFollow {
+		pre := "receive/child-of-rejected-forged-block-accepted/" + strings.TrimPrefix(fn, "child/")
+		what := "a child commit (Heads = [the forged block], " + strings.TrimPrefix(fn, "child/") + ")"
+		if strings.HasPrefix(fn, "linker/") {
+			pre = "receive/linker-of-rejected-forged-block-accepted/" + strings.TrimPrefix(fn, "linker/")
+			what = "the commit that links the original block, re-pointed to the forged block (" + strings.TrimPrefix(fn, "linker/") + ")"
+		}
+		report(hs, nSequences, pre+"/every-tampering", pre,
+			"the receive path (syncDAG) rejected each of %d tampered signed blocks, and afterwards accepted for every one of them "+what+" although the forged block is part of the delivered DAG",
+			"after a signed %s block whose %s was changed had been rejected, the receive path (syncDAG) accepts "+what+": the forged block stayed in the block store and is not verified when it is reached again (%s)")
+	}
 	r.Sample(map[string]any{"params": p, "signed_blocks": len(signed), "log": log})
 }
 
 type c12Hit struct {
 	Cell     string `json:"cell"`
+	Step     string `json:"step,omitempty"`   // first-delivery | <phase>/redelivery | <phase>/<follow-up>
+	Follow   string `json:"follow,omitempty"` // the follow-up commit that got through (child/..., linker/...)
+	Later    int    `json:"later_deliveries_also_accepted,omitempty"`
 	Kind     string `json:"kind"`
 	Original string `json:"original"`
 	Tampered string `json:"tampered"`
@@ -931,12 +1226,23 @@ func init() {
 	}
 	floors = append(floors, "tampered_kind_composite", "tampered_kind_field-genesis", "tampered_kind_collection", "control_changed_receiver", "control_sync_ok",
 		"tampered_rejected", "signed_blocks_verified", "resigned_checked", "unsigned_field_update_blocks_by_design")
+	// delivery sequences on one receiver
+	floors = append(floors, "tampered_redelivered", "tampered_redelivered_before-control", "tampered_redelivered_after-control", "tampered_redelivered_rejected",
+		"child_of_tampered_delivered", "linker_of_tampered_delivered", "followup_before-control", "followup_after-control", "followup_rejected",
+		"followup_on_composite", "followup_on_field-genesis", "followup_on_collection",
+		"control_child_accepted", "control_child_changed_receiver", "control_linker_merged")
+	for _, n := range c12FollowupNames {
+		floors = append(floors, "followup:"+n)
+	}
 	core.Register(&core.Check{
 		ID: "C12", Level: "exploration",
-		Rule: "8 anchor histories + generated histories on a signing node (secp256k1 / ed25519 identity derived from the case seed; 1-3 documents, 1-5 updates incl. counters and deletes; " +
+		Rule: "10 anchor histories + generated histories on a signing node (secp256k1 / ed25519 identity derived from the case seed; 1-3 documents, 1-5 updates incl. counters and deletes; " +
 			"plain, branchable, document-level encrypted). Every block written is verified under the signer's key, a fresh key of the same type and a key of the other type; " +
 			"every signed block x every single-field tampering of the block or its signature block is re-encoded, checked with VerifySignature on a scratch node and offered to " +
 			"net.VerifSyncDAG (+ merge only on success, as the push-log handler does) on a receiver that holds all linked blocks; documents, commits and raw heads of the receiver are compared. " +
+			"Each rejected tampered block is followed, on the same receiver (block store not reset), by the same block again and by commits that have it in their DAG " +
+			"(child with Heads=[forged] and the re-pointed linking commit, each unsigned / signed by the signer / signed by another identity), before and again after the untampered control was merged; " +
+			"all must be rejected with the receiver unchanged; a validly signed child of the genuine block must be accepted (control). " +
 			"distinct = (key type, block kind, tampered field); non-trivial = the tampering changed the encoded bytes and the block still decodes.",
 		Cases:       c12Cases,
 		Run:         runC12,
@@ -946,6 +1252,8 @@ func init() {
 			"receive path = net.syncDAG through hook H2 with an offline block service over the receiver's own block store; the merge event is raised only when syncDAG returns nil (net/server.go pushLogHandler)",
 			"a block whose signature link was stripped is an unsigned block, which the property does not speak about; it is not part of the matrix",
 			"a block changed and re-signed by another identity is an authentic commit of that identity, not a forgery: only VerifySignature under the original signer's key is required to fail",
+			"a commit whose DAG contains a forged signed block is itself a delivery of that forged block: the receive path walks the whole DAG and must reject it whatever the signature state of the commit on top (net/sync_dag.go loadBlockLinks verifies every signed block it reaches)",
+			"a rejected forged block that stays in the block store as an orphan is a note, not a violation: the property speaks of documents' state, history and heads",
 		},
 	})
 }
